@@ -237,3 +237,31 @@ Theorem C01_unbroadcast_model_follows_source :
   forall ts os, steps_of ts os = (let '(ss, s) := gen_lead_steps (length os - length ts) os in ss ++ gen_ax_steps 1 ts s).
 Proof. exact steps_of_follow_source. Qed.
 Print Assumptions C01_unbroadcast_model_follows_source.
+
+(* linalg.det for 2 x 2 and 3 x 3 matrices over any commutative ring: det(A + H) = det A + <cof A, H> + higher order,
+   exactly, and det(A) * inv(A)^T = cof A - so the registered rule g * det(x) * inv(x)^T is g times the gradient of det *)
+From AG Require Import Det.
+Theorem C01_det_rule_2x2_3x3 :
+  forall (K : Type) (k0 k1 : K) (kadd kmul ksub : K -> K -> K) (kopp : K -> K),
+    ring_theory k0 k1 kadd kmul ksub kopp eq ->
+    (forall a b c d ha hb hc hd,
+        det2 K kmul ksub (kadd a ha) (kadd b hb) (kadd c hc) (kadd d hd)
+        = kadd (kadd (det2 K kmul ksub a b c d) (kadd (kadd (kadd (kmul d ha) (kmul (kopp c) hb)) (kmul (kopp b) hc)) (kmul a hd)))
+               (det2 K kmul ksub ha hb hc hd))
+    /\ (forall a b c d p q r s,
+        kadd (kmul a p) (kmul b r) = k1 -> kadd (kmul a q) (kmul b s) = k0 -> kadd (kmul c p) (kmul d r) = k0 -> kadd (kmul c q) (kmul d s) = k1 ->
+        kmul (det2 K kmul ksub a b c d) p = d /\ kmul (det2 K kmul ksub a b c d) r = kopp c
+        /\ kmul (det2 K kmul ksub a b c d) q = kopp b /\ kmul (det2 K kmul ksub a b c d) s = a)
+    /\ (forall a1 a2 a3 b1 b2 b3 c1 c2 c3 p1 p2 p3,
+        kadd (kadd (kmul a1 p1) (kmul a2 p2)) (kmul a3 p3) = k1 -> kadd (kadd (kmul b1 p1) (kmul b2 p2)) (kmul b3 p3) = k0 ->
+        kadd (kadd (kmul c1 p1) (kmul c2 p2)) (kmul c3 p3) = k0 ->
+        kmul (det3 K kadd kmul ksub a1 a2 a3 b1 b2 b3 c1 c2 c3) p1 = cof11 K kmul ksub a1 a2 a3 b1 b2 b3 c1 c2 c3
+        /\ kmul (det3 K kadd kmul ksub a1 a2 a3 b1 b2 b3 c1 c2 c3) p2 = cof12 K kmul ksub kopp a1 a2 a3 b1 b2 b3 c1 c2 c3
+        /\ kmul (det3 K kadd kmul ksub a1 a2 a3 b1 b2 b3 c1 c2 c3) p3 = cof13 K kmul ksub a1 a2 a3 b1 b2 b3 c1 c2 c3).
+Proof.
+  intros K k0 k1 kadd kmul ksub kopp HR.
+  split; [exact (det2_expansion K k0 k1 kadd kmul ksub kopp HR)|].
+  split; [exact (det2_times_inverse K k0 k1 kadd kmul ksub kopp HR)|].
+  exact (det3_times_inverse_first_row K k0 k1 kadd kmul ksub kopp HR).
+Qed.
+Print Assumptions C01_det_rule_2x2_3x3.
